@@ -103,7 +103,8 @@ CHECKS = {
    technique='Coq proof (decision-tree argument over all comparison sorts; insertion-position-independent rejection) + conflict-injection correspondence',
    note=TB + " Assumed of sort.Slice: it is a deterministic comparison sort, correct on injective keys, comparing only indices in range."),
  'C08': dict(
-   text="PARTIAL. Machine-checked proof (Coq) that every modelled formatter (list txt/md/csv/json, diff txt/md/csv, byte-exact models) is a function of the multiset of result entries — for ANY correct sort, not only the model's — "
+   text="PARTIAL. Machine-checked proof (Coq) that two successful evaluations over worlds differing only in the order of the NetworkPolicies (Go's map-iteration order included), of the rules of a policy, of the peers and ports of a rule and of "
+        "policyTypes return the identical canonical connection set for every pair of peers; that every modelled formatter (list txt/md/csv/json, diff txt/md/csv, byte-exact models) is a function of the multiset of result entries — for ANY correct sort, not only the model's — "
         "and that sorting strings/rows is order-independent (transitivity of Coq's string order proved); together with C01/C02 (the report is the Spec), C11 canonical forms and the order-independent ANP list this makes the model's output a function of the resource set. "
         "Real map-iteration schedules, the dot and exposure writers and Errors() order are only sampled: every world is analysed repeatedly per format unchanged / reordered / re-partitioned into files / with rules, peers, ports permuted, and all outputs must be byte-identical.",
    design_ref='DESIGN.md section 6 / C08',
